@@ -79,10 +79,17 @@ class Check:
                 nodes.append({"path": la, "type": "symlink", "target": ("$W/" + b) if absolute else rel_to(la, b)})
                 nodes.append({"path": lb, "type": "symlink", "target": ("$W/" + a) if absolute else rel_to(lb, a)})
             elif kind == "chain":
-                t = rng.choice(dirs_in + dirs_sib)
-                l2 = d + "/c%d" % li
-                nodes.append({"path": l2, "type": "symlink", "target": ("$W/" + t) if absolute else rel_to(l2, t)})
-                nodes.append({"path": lp, "type": "symlink", "target": os.path.basename(l2)})
+                # a chain of links; the later hop usually sits in another directory, so its relative target
+                # must be resolved against *its* directory
+                t = rng.choice(dirs_in + dirs_sib + dirs_sib)
+                d2 = rng.choice(dirs_in + dirs_sib) if rng.random() < 0.7 else d
+                l2 = d2 + "/c%d" % li
+                if l2 in have or lp in have:
+                    continue
+                have.add(l2)
+                have.add(lp)
+                nodes.append({"path": l2, "type": "symlink", "target": ("$W/" + t) if absolute and rng.random() < 0.5 else rel_to(l2, t)})
+                nodes.append({"path": lp, "type": "symlink", "target": ("$W/" + l2) if absolute else rel_to(lp, l2)})
             elif kind == "dangling":
                 nodes.append({"path": lp, "type": "symlink", "target": spell(ROOT + "/no/such")})
             else:
